@@ -20,6 +20,13 @@
    some interleaving of the lanes makes the table model return exactly the observed codes, run
    counts and table contents; [P_b]: the counting laws of the property on the observation alone.
 
+   [Real sc os]: a script run in REAL time outside bubbles (one unit = some tens of milliseconds) in a
+   process with the buffered timer channels of the repository's go directive; [os] = the serial
+   repetitions that ran on a quiet machine; flake policy: it counts when NO repetition is acceptable.
+   The callers' own contexts (cancelled, expired, cancelled concurrently) are not part of a script:
+   the model ignores them and [P_b] never reads them.  [Tabled] also carries what
+   harness/mocks.RecScheduler answered to the same history ([mockobs]).
+
    [P_b] is the property itself, evaluated on the script and the OBSERVED outcome only. *)
 From Coq Require Import String.
 From Verif Require Export Lib.Base Lib.Reach Model.C02_Scheduler Model.C02_Script Model.C02_TableOps Model.C02_Burst.
